@@ -310,7 +310,18 @@ class AppError(Exception):
 
 
 import zExceptions  # noqa
-EXC.update({'Redirect': zExceptions.Redirect, 'NotFound': zExceptions.NotFound, 'Cancelled': Cancelled, 'AppError': AppError, 'MultiError': MultiError, 'DeepMultiError': DeepMultiError, 'UnsupportedOperation': io.UnsupportedOperation,
+
+
+class _ErrA(OSError):
+    pass
+
+
+class _ErrB(Exception):
+    pass
+
+
+_ErrA.__name__ = _ErrB.__name__ = 'Error'          # two libraries' own "Error" classes
+EXC.update({'ErrorA': _ErrA, 'ErrorB': _ErrB, 'Redirect': zExceptions.Redirect, 'NotFound': zExceptions.NotFound, 'Cancelled': Cancelled, 'AppError': AppError, 'MultiError': MultiError, 'DeepMultiError': DeepMultiError, 'UnsupportedOperation': io.UnsupportedOperation,
             'OSError': OSError})
 
 
@@ -556,7 +567,7 @@ def expected(model):
             res = ['ok', v['id']]
     else:
         m = r['msg']
-        res = ['exc', r['cls'], _flat(m)]
+        res = ['exc', {'ErrorA': 'Error', 'ErrorB': 'Error'}.get(r['cls'], r['cls']), _flat(m)]
     evs = [[e[0], 'map' if e[1] in ('cache', 'none', 'cmap') else e[1], e[2]] for e in model['evs']]
     return {'result': res, 'calls': model['calls'], 'evs': evs, 'ninv': model['ninv'],
             'depth': model['depth'], 'level': model['level']}
